@@ -106,7 +106,7 @@ psgstrf_pivotL(
     pivmax = 0.0;
     pivptr = nsupc;
     diag = EMPTY;
-    old_pivptr = nsupc;
+    old_pivptr = EMPTY;
     for (isub = nsupc; isub < nsupr; ++isub) {
         rtemp = fabs (lu_col_ptr[isub]);
 	if ( rtemp > pivmax ) {
@@ -137,6 +137,10 @@ psgstrf_pivotL(
     thresh = u * pivmax;
     
     /* Choose appropriate pivotal element by our policy. */
+    if ( *usepr == YES && old_pivptr == EMPTY ) {
+	/* the requested pivot row is not a candidate (structurally zero) */
+	*usepr = NO;
+    }
     if ( *usepr == YES ) {
         rtemp = fabs (lu_col_ptr[old_pivptr]);
 	if ( rtemp != 0.0 && rtemp >= thresh )
